@@ -212,6 +212,7 @@ func discoverCase(c *vlib.Cases, pf *profile.Factory, epType string, rounds []ro
 	reg := registry.NewUnifiedMemoryModelRegistry(log, &config.UnificationConfig{Enabled: true, CacheTTL: time.Minute}, nil, nil)
 	client := discovery.NewHTTPModelDiscoveryClientWithDefaults(pf, log)
 	svc := discovery.NewModelDiscoveryService(client, repo, reg, discovery.DiscoveryConfig{Interval: time.Hour, Timeout: 3 * time.Second, ConcurrentWorkers: 1, RetryAttempts: 1, RetryBackoff: time.Millisecond}, log)
+	vlib.Breadcrumb(map[string]any{"kind": "discover", "type": epType, "rounds": rounds})
 	var out []roundObs
 	alphabet := map[string]bool{}
 	for _, n := range namePool {
@@ -274,7 +275,9 @@ func discoverCase(c *vlib.Cases, pf *profile.Factory, epType string, rounds []ro
 	c.Emit(map[string]any{"kind": "discover", "type": epType, "rounds": rounds, "impl": map[string]any{"obs": out}})
 }
 
-var namePool = []string{"llama3:8b", "llama3:70b", "phi4:latest", "Qwen2.5-Coder", "mistral", "a::b", "x*", "gemma2:9b"}
+var namePool = []string{"llama3:8b", "llama3:70b", "phi4:latest", "Qwen2.5-Coder", "mistral", "a::b", "x*", "gemma2:9b",
+	// names a backend is free to use: namespaces, hub prefixes, non-ASCII letters whose case mappings change length
+	"hf.co/unsloth/Qwen3-32B-GGUF", "ȺȺȺ/m", "hf.co/ȺȾȺȾ/q", "İstanbul/model:İ", "模型/七", "ǅ/ǆ", "ﬁne/ﬂ", "a/b/c/d", "/", "//x", "org/", ":tag", "e\u0301/e\u0301"}
 
 func genNames(r *vlib.Rng) []string {
 	pool := namePool
